@@ -125,8 +125,14 @@ func DecodePointer(reader io.Reader) (*Pointer, error) {
 // If the pointer could not be decoded, an io.Reader containing the entire
 // blob's data will be returned, along with a parse error.
 func DecodeFrom(reader io.Reader) (*Pointer, io.Reader, error) {
+	// Read until the cutoff or the end of the input, whichever comes
+	// first: a single Read may return only part of what is available,
+	// and what is a pointer must not depend on how the input is chunked.
 	buf := make([]byte, blobSizeCutoff)
-	n, err := reader.Read(buf)
+	n, err := io.ReadFull(reader, buf)
+	if err == io.ErrUnexpectedEOF {
+		err = io.EOF
+	}
 	buf = buf[:n]
 
 	var contents io.Reader = bytes.NewReader(buf)
@@ -140,6 +146,12 @@ func DecodeFrom(reader io.Reader) (*Pointer, io.Reader, error) {
 
 	if len(buf) == 0 {
 		return EmptyPointer(), contents, nil
+	}
+
+	if err != io.EOF {
+		// The input is at least as long as the cutoff, and pointers
+		// are always shorter than that.
+		return nil, contents, errors.NewNotAPointerError(errors.New(tr.Tr.Get("input size exceeds Git LFS pointer size cutoff")))
 	}
 
 	p, err := decodeKV(bytes.TrimSpace(buf))
